@@ -1037,6 +1037,9 @@ def inline_body(eng, mod, fdef, args, kwargs, st, node, closure_env=None):
     st.env = env
     eng.frame.mod = mod
     eng.frame.inline_depth = getattr(eng.frame, 'inline_depth', 0) + 1
+    if not hasattr(eng.frame, 'inlined_shas'):
+        eng.frame.inlined_shas = set()
+    eng.frame.inlined_shas.add(mod.sha(fdef))       # the caller's obligations depend on this text too
     try:
         from . import stmts
         outs = stmts.exec_block(eng, fdef.body, st)
